@@ -150,6 +150,39 @@ Theorem C14_mdarray_from_mdspan : forall (T : Type) (dflt : T) l store base msrc
 Proof. exact c14_mdarray_from_mdspan_ok. Qed.
 Print Assumptions C14_mdarray_from_mdspan.
 
+(* --- swap exchanges (data handle, mapping) of two views / (container, mapping) of two arrays, assignment copies them:
+       afterwards every tuple designates the element the other object designated before *)
+Theorem C14_swap_views : forall x y idx,
+  c14_view_offset (fst (c14_view_swap x y)) idx = c14_view_offset y idx /\
+  c14_view_offset (snd (c14_view_swap x y)) idx = c14_view_offset x idx /\
+  snd (fst (c14_view_swap x y)) = snd y /\ snd (snd (c14_view_swap x y)) = snd x.
+Proof. exact c14_view_swap_ok. Qed.
+Print Assumptions C14_swap_views.
+
+Theorem C14_swap_views_in_range : forall x y idx, c14_wf (snd y) -> c14_valid idx (c14_ext (snd y)) ->
+  fst y <= c14_view_offset (fst (c14_view_swap x y)) idx < fst y + c14_required_span_size (snd y).
+Proof. exact c14_view_swap_in_range. Qed.
+Print Assumptions C14_swap_views_in_range.
+
+Theorem C14_assign_views : forall x y idx,
+  c14_view_offset (fst (c14_view_assign x y)) idx = c14_view_offset y idx /\
+  c14_view_offset (snd (c14_view_assign x y)) idx = c14_view_offset y idx /\
+  snd (fst (c14_view_assign x y)) = snd y.
+Proof. exact c14_view_assign_ok. Qed.
+Print Assumptions C14_assign_views.
+
+Theorem C14_swap_arrays : forall (T : Type) (x y : c14_array T) idx,
+  c14_array_get (fst (c14_array_swap x y)) idx = c14_array_get y idx /\
+  c14_array_get (snd (c14_array_swap x y)) idx = c14_array_get x idx.
+Proof. exact c14_array_swap_ok. Qed.
+Print Assumptions C14_swap_arrays.
+
+Theorem C14_assign_arrays : forall (T : Type) (x y : c14_array T) idx,
+  c14_array_get (fst (c14_array_assign x y)) idx = c14_array_get y idx /\
+  c14_array_get (snd (c14_array_assign x y)) idx = c14_array_get y idx.
+Proof. exact c14_array_assign_ok. Qed.
+Print Assumptions C14_assign_arrays.
+
 (* --- span: sub-views refer to the same elements; at() rejects exactly i >= size *)
 Theorem C14_span_subspan : forall s o c s', c14_span_subspan s o c = Some s' -> 0 <= o ->
   (forall i, c14_span_index s' i = c14_span_index s (o + i)) /\
